@@ -165,7 +165,7 @@ func c08Check[E zzverif.Scalar](v *zzverif.T) {
 		for k, e := range ext {
 			s := append([]int{}, shape...)
 			s[ta] = e
-			d := zzverif.Syms[E](v, fmt.Sprintf("x%d", k), zzverif.Prod(s))
+			d := zzverif.Data[E](v, fmt.Sprintf("x%d", k), zzverif.Prod(s))
 			datas = append(datas, d)
 			shapes = append(shapes, s)
 			t := zzverif.NewTensor(d, s)
